@@ -166,3 +166,113 @@ def run(ctx):
         "generator_type_constructors": {k[2:]: gen_cov[k] for k in sorted(gen_cov) if k.startswith("k_")},
         "generator_mismatch_kinds": {k[3:]: gen_cov[k] for k in sorted(gen_cov) if k.startswith("mm_")},
     }
+
+
+def subst_vars(t, nfs):
+    """normal form of `t` given the normal forms of all variables"""
+    if isinstance(t, str):
+        return t
+    if len(t) == 2 and t[0] == "tvar":
+        i = int(t[1])
+        return nfs[i] if i < len(nfs) else t
+    return [t[0]] + [subst_vars(x, nfs) for x in t[1:]]
+
+
+def run_solve(ctx):
+    """the constraint loop: `gv solve` runs generated constraint queues through the REAL `Typer::solve` against real
+    environments (a compiled prelude, plus synthetic impl rows and a dependency), `gomlmodel solve` (Model/Solve.lean) answers
+    the same queues; compared: the diagnostic classes in order, the constraints left in the queue, the number of keys, the normal
+    forms of all variables.  Oracle on the real answers: no cyclic store, no panic / crash; without diagnostics every queued
+    equality holds (computed here from the real normal forms of the variables) and nothing is left in the queue; something is
+    left in the queue iff the run ends with the two `unsolved` / `inference-failed` diagnostics."""
+    path = os.path.join(ctx.run_dir, "solve.cases.tsv")
+    prog = os.path.join(ctx.run_dir, "solve.progress")
+    skip, crashed = [], []
+    while True:
+        for f in (path, prog):
+            if os.path.exists(f):
+                os.remove(f)
+        nb = len(ctx.broken_ties)
+        ok, out = ctx.gv("solve", ["--skip", ",".join(map(str, skip))] if skip else [])
+        if ok or not os.path.exists(prog) or len(skip) >= 6:
+            break
+        idx, cid, script = (open(prog).read().rstrip("\n").split("\t") + ["", ""])[:3]
+        del ctx.broken_ties[nb:]
+        crashed.append(cid)
+        ctx.report({"oracle": "solve-no-crash", "kind": "abort"},
+                   "the REAL Typer::solve killed the process on this constraint queue (stack overflow: unbounded recursion)",
+                   {"id": cid, "script": script, "harness_output": out[-300:]})
+        skip.append(int(idx))
+    rows = vlib.read_tsv(path) if ok and os.path.exists(path) else []
+    envs = [r for r in rows if r[0] == "#ENV"]
+    cases = [r for r in rows if len(r) >= 4 and r[1] == "SOLVE"]
+    gen_cov = {}
+    for r in rows:
+        if r[0] == "#COV" and len(r) > 1:
+            for kv in r[1].split(";"):
+                k, _, v = kv.partition("=")
+                gen_cov[k] = int(v) if v.isdigit() else v
+    if not cases:
+        ctx.broken_ties.append(("gv solve", "no cases: " + out[-500:]))
+        return {"queues": 0}
+    lines = ["\t".join(r[:3]) for r in envs] + [f"{r[0]}\t{r[2]}" for r in cases]
+    p = subprocess.run([vlib.MODEL, "solve"], input="\n".join(lines) + "\n", stdout=subprocess.PIPE, stderr=subprocess.PIPE,
+                       text=True, timeout=3000)
+    if p.returncode != 0:
+        ctx.broken_ties.append(("model driver solve", p.stderr[-1000:]))
+    model = dict(l.split("\t", 1) for l in p.stdout.split("\n") if "\t" in l)
+    if "#ENV" in model:
+        ctx.broken_ties.append(("model driver solve", "environment not decoded: " + model["#ENV"][:200]))
+    n_diff = n_clean = n_rest = n_fresh = n_constraints = 0
+    classes, kinds, distinct, samples = {}, {}, set(), []
+    for r in cases:
+        cid, script, impl = r[0], r[2], r[3]
+        si, ri = parse(script), parse(impl)
+        nfresh = int(si[2][1])
+        cs = si[3][1:]
+        n_constraints += len(cs)
+        for c in cs:
+            kinds[c[0]] = kinds.get(c[0], 0) + 1
+        res = {x[0]: x[1:] for x in ri[1:] if isinstance(x, list) and x}
+        payload = {"id": cid, "script": script, "real_answer": impl[:1500]}
+        if "panic" in res:
+            ctx.report({"oracle": "solve-no-panic", "kind": "panic"}, "the real Typer::solve panicked", payload)
+        elif "cyclic" in res:
+            ctx.report({"oracle": "solve-store-acyclic", "kind": "cyclic-store"},
+                       "after Typer::solve the REAL union-find store is cyclic (norm would not return)", payload)
+        else:
+            diags, rest, nfs = res.get("diags", []), res.get("rest", []), res.get("vars", [])
+            for d in diags:
+                classes[d] = classes.get(d, 0) + 1
+            distinct.add((tuple(diags), tuple(c[0] for c in cs), len(rest)))
+            if int(res.get("nvars", ["0"])[0]) > nfresh:
+                n_fresh += 1
+            stuck = diags[-2:] == ["unsolved", "inference-failed"]
+            if bool(rest) != stuck:
+                ctx.report({"oracle": "solve-queue", "kind": "left-over-without-the-final-diagnostics" if rest else "final-diagnostics-with-empty-queue"},
+                           "constraints are left in the queue iff solve ends with `Could not solve all constraints` + `Type inference failed`", payload)
+            if rest:
+                n_rest += 1
+            if not diags:
+                n_clean += 1
+                for c in cs:
+                    if c[0] == "eq" and not agree(subst_vars(c[1], nfs), subst_vars(c[2], nfs)):
+                        ctx.report({"oracle": "solve-sound", "kind": "equality-constraint-does-not-hold-after-a-clean-solve"},
+                                   "solve pushed no diagnostic but a queued equality does not hold under the final substitution",
+                                   dict(payload, constraint=show(c)))
+        m = model.get(cid)
+        if m != impl:
+            n_diff += 1
+            if n_diff <= 5:
+                ctx.broken_ties.append(("solve model≠impl", f"{cid}\n  script: {script}\n  impl : {impl[:900]}\n  model: {(m or 'no answer')[:900]}"))
+        if len(samples) < 2 and cid.split(":")[1] == "chain" and len(script) < 600:
+            samples.append({"id": cid, "script": script, "real_answer": impl[:500]})
+    if n_diff > 5:
+        ctx.broken_ties.append(("solve model≠impl", f"{n_diff} queues differ in all"))
+    return {
+        "queues": len(cases), "queues_that_killed_the_process": crashed, "constraints": n_constraints, "constraint_kinds": kinds,
+        "distinct(diagnostics, kinds, left-over)": len(distinct), "diagnostic_classes_observed(real, in total)": classes,
+        "queues_without_diagnostics": n_clean, "queues_with_constraints_left": n_rest, "queues_where_inst_ty_created_keys": n_fresh,
+        "environments": [r[1] for r in envs], "model_diffs": n_diff, "samples": samples,
+        "generator": {k: gen_cov[k] for k in sorted(gen_cov)},
+    }
